@@ -33,8 +33,12 @@ func init() {
 			{ID: "R11g", Floor: 1, Doc: "the read-side bucket-width cap admits everything the default write-side CID limit admits", Run: ruleR11g},
 			{ID: "R11h", Floor: 5, Doc: "wire-layout agreement: for every index type the sequence of fixed-width fields its Marshal writes with binary.Write equals, width for width, the sequence its Unmarshal reads with binary.Read", Run: ruleR11h},
 			{ID: "R11i", Floor: 2, Doc: "decode loops store a fresh object per iteration: a pointer put into an index container inside a loop of package index points to an allocation made in that iteration (a pointer to a variable declared outside the loop makes every entry alias the last one decoded)", Run: ruleR11i},
+			{ID: "R11k", Floor: 1, Doc: "index decoders read exactly what they decode: no buffering reader (bufio) is put over the shared reader inside package index — it reads ahead, and the caller's next group or the next index field starts at the wrong byte", Run: ruleR11k},
+			{ID: "R11l", Floor: 1, Doc: "the digests the sorted index files its records under are those of a multihash decoder (DecodedMultihash.Digest), not a hand-computed slice of the multihash (length prefixes are varints)", Run: ruleR11l},
 			{ID: "R11e", Floor: 1, Doc: "rescan indexes every section (= R12c)", Run: ruleR12c},
 			{ID: "R11j", Floor: 1, Doc: "index generation loads all records in one Load (bucket-overwriting codecs lose earlier batches) (= R03h)", Run: ruleR03h},
+			{ID: "R11m", Floor: 2, Doc: "a regenerated index records true section offsets (= R03b)", Run: ruleR03b},
+			{ID: "R11n", Floor: 1, Doc: "the rescan ends where the payload ends (payload-relative position against DataSize) (= R03e)", Run: ruleR03e},
 		},
 	})
 }
@@ -949,4 +953,59 @@ func funcValueTarget(v ssa.Value) *ssa.Function {
 		}
 	}
 	return f
+}
+
+func ruleR11k(c *Ctx, r *Report) {
+	var bad []string
+	n := 0
+	for _, fn := range c.RepoFuncs() {
+		if fn.Pkg == nil || fn.Pkg.Pkg.Path() != pkgIndex {
+			continue
+		}
+		n++
+		eachInstr(fn, func(in ssa.Instruction) {
+			ci, ok := in.(ssa.CallInstruction)
+			if !ok {
+				return
+			}
+			if f := calleeFunc(ci.Common()); f != nil && f.Pkg() != nil && f.Pkg().Path() == "bufio" && strings.HasPrefix(f.Name(), "NewReader") {
+				bad = append(bad, fmt.Sprintf("%s at %s", fnKey(fn), c.Pos(in.Pos())))
+			}
+		})
+	}
+	sort.Strings(bad)
+	r.Check(len(bad) == 0, "no-readahead@v2/index", "-", fmt.Sprintf("%d functions of package index, none wraps a reader in bufio", n),
+		"a bufio reader is created in "+strings.Join(bad, "; ")+": it consumes up to a buffer's worth of the bytes that whoever reads next from the underlying reader expects")
+}
+
+func ruleR11l(c *Ctx, r *Report) {
+	fn, err := c.Func(pkgIndex, "multiWidthIndex", "Load")
+	if err != nil {
+		r.InfraFail("%v", err)
+		return
+	}
+	key := "digest-provenance@" + fnKey(fn)
+	n, bad := 0, ""
+	eachInstr(fn, func(in ssa.Instruction) {
+		st, ok := in.(*ssa.Store)
+		if !ok {
+			return
+		}
+		fa, ok := st.Addr.(*ssa.FieldAddr)
+		if !ok || !fieldAddrIs(fa, pkgIndex, "digestRecord", "digest") {
+			return
+		}
+		n++
+		for _, o := range origins(st.Val, originOpts{}) {
+			if o.Kind == "field" && o.Field != nil && o.Field.Name() == "Digest" {
+				continue
+			}
+			bad = fmt.Sprintf("the digest stored at %s comes from %s, not from DecodedMultihash.Digest: a slice taken at a computed offset is wrong whenever the length prefix is longer than one byte (digests of 128 bytes and more)", c.Pos(st.Pos()), o.Kind)
+		}
+	})
+	if n == 0 {
+		r.Undec(key, c.Pos(fn.Pos()), "no digestRecord.digest store found")
+		return
+	}
+	r.Check(bad == "", key, c.Pos(fn.Pos()), fmt.Sprintf("%d record(s) built from the decoder's digest", n), bad)
 }
